@@ -53,7 +53,28 @@ func (c *Ctx) measure(v ssa.Value, depth int) string {
 			return n
 		}
 		return "call"
-	case *ssa.Parameter, *ssa.Extract, *ssa.Phi, *ssa.TypeAssert:
+	case *ssa.Parameter:
+		// a quantity that a helper is handed (`validateLength(v.Len())`): what the call sites measure, if they agree
+		if srcs := core.ParamSources(x); len(srcs) > 0 {
+			agreed := ""
+			for _, src := range srcs {
+				if src == ssa.Value(x) {
+					agreed = ""
+					break
+				}
+				m := c.measure(src, depth+1)
+				if agreed != "" && agreed != m {
+					agreed = ""
+					break
+				}
+				agreed = m
+			}
+			if agreed != "" {
+				return agreed
+			}
+		}
+		return "value"
+	case *ssa.Extract, *ssa.Phi, *ssa.TypeAssert:
 		return "value"
 	case *ssa.UnOp:
 		return "value"
@@ -385,11 +406,35 @@ func (c *Ctx) mustRead(fn *ssa.Function, fv *types.Var, memo map[string]int, dep
 // result can be returned is dominated by a range test or followed by a round-trip equality test that rejects.
 func (c *Ctx) ruleNarrow(rule string) {
 	n := 0
+	// the mappers, and the helpers of the package they hand a part of the conversion to
+	var fns []*ssa.Function
+	inSet := map[*ssa.Function]bool{}
 	for _, key0 := range []string{"schema.intInputMapper", "schema.floatInputMapper"} {
-		fn := c.fn(rule, key0)
-		if fn == nil {
-			continue
+		if fn := c.fn(rule, key0); fn != nil && !inSet[fn] {
+			inSet[fn] = true
+			fns = append(fns, fn)
 		}
+	}
+	for i := 0; i < len(fns) && len(fns) < 12; i++ {
+		for _, b := range fns[i].Blocks {
+			for _, in := range b.Instrs {
+				if call, ok := in.(*ssa.Call); ok {
+					if h := core.StaticBody(&call.Call); h != nil && h.Pkg == fns[i].Pkg && h.Signature.Recv() == nil && !inSet[h] && len(h.Blocks) > 0 {
+						// only helpers that return a number (and possibly an error): parts of the conversion
+						res := h.Signature.Results()
+						if res.Len() >= 1 && res.Len() <= 2 {
+							if bt, ok := res.At(0).Type().Underlying().(*types.Basic); ok && bt.Info()&types.IsNumeric != 0 {
+								inSet[h] = true
+								fns = append(fns, h)
+							}
+						}
+					}
+				}
+			}
+		}
+	}
+	for _, fn := range fns {
+		key0 := c.M.Key(fn)
 		idx := 0
 		for _, b := range fn.Blocks {
 			for _, in := range b.Instrs {
